@@ -3,6 +3,21 @@
 import json, sys
 pid, wt = sys.argv[1], sys.argv[2]
 n = sys.argv[3] if len(sys.argv) > 3 else "3"
+import glob, os
+avoid = ""
+if len(sys.argv) > 4 and sys.argv[4] == "avoid":
+    heads = []
+    for d in sorted(glob.glob('/verif/seeded/%s-*' % pid)):
+        f = os.path.join(d, 'notes.md')
+        if os.path.exists(f):
+            lines = [l.strip('# ').strip() for l in open(f) if l.strip()]
+            if lines:
+                heads.append(lines[0][:160])
+    if heads:
+        avoid = ("\n\nOther engineers have already produced the following changes for this property. Yours must be DIFFERENT in kind from all of them "
+                 "(a different function or mechanism, a different clause where possible), and harder to notice: prefer changes whose effect depends on "
+                 "the history of earlier calls or on state shared between objects, changes where two edited sites cooperate, and changes that only affect "
+                 "an input class nobody would think of trying.\n" + "\n".join("  - " + h for h in heads))
 for l in open('/verif/properties.jsonl'):
     p = json.loads(l)
     if p['id'] == pid:
@@ -24,7 +39,7 @@ Your task: produce {n} DIFFERENT, independent changes (patches) to the library's
   2. still imports/compiles, and
   3. keeps the existing test-suite green: `cd {wt} && /venv/bin/python -m pytest -q -p no:cacheprovider --timeout=900 --continue-on-collection-errors` must still report `190 passed` (1 collection error for test_fluidsynth is the normal baseline).
 
-Make the changes REALISTIC (the kind of slip a maintainer could make while refactoring or optimising: an off-by-one in a table index or wrap-around, a cursor advanced before a capacity test, a cached/shared mutable value, a branch of an octave/accidental fix-up dropped, a tolerance changed, two cooperating sites that each look fine alone...) and SUBTLE: each must need something specific to manifest — a particular multi-step sequence of operations, an unusual but legal input (double accidentals, a rarely used key or meter, a value like a dotted or tuplet note, a boundary), a particular prior call history — rather than something ordinary use would expose at once. Do not write changes that only affect error messages, comments, performance or anything the statement does not talk about. Prefer three changes that break different clauses of the statement.
+Make the changes REALISTIC (the kind of slip a maintainer could make while refactoring or optimising: an off-by-one in a table index or wrap-around, a cursor advanced before a capacity test, a cached/shared mutable value, a branch of an octave/accidental fix-up dropped, a tolerance changed, two cooperating sites that each look fine alone...) and SUBTLE: each must need something specific to manifest — a particular multi-step sequence of operations, an unusual but legal input (double accidentals, a rarely used key or meter, a value like a dotted or tuplet note, a boundary), a particular prior call history — rather than something ordinary use would expose at once. Do not write changes that only affect error messages, comments, performance or anything the statement does not talk about. Prefer three changes that break different clauses of the statement.{avoid}
 
 For each change i = 1..{n} write, in the directory {wt}/seed_out/<i>/ :
   * patch.diff — `git diff` of that change alone against the clean worktree (make sure it applies with `git apply` to a clean checkout);
